@@ -289,4 +289,34 @@ example : ¬ Amp.RT.AStmtOK (.constant "nEvents" "1") ∧ ¬ Amp.RT.AStmtOK (.ev
     ¬ Amp.RT.AStmtOK (.output "\"a\"b\"") ∧ ¬ Amp.RT.AStmtOK (.nEvents "+5") ∧
     ¬ Amp.RT.FlagsInt (.variable "x" "2.0" "1" "0") := by decide
 
+/-! #### from the text to the tables: the reader composed with `read_ampgen` -/
+
+/-- `read_ampgen` on a *text*: read the text, then read the statements -/
+def readAmpgenText (pol : ResetPolicy) (lookup : String → Option String) (st : RState) (text : String) :
+    Option (Except AmpErr (ReadOut × RState)) :=
+  match readAmp text with
+  | .ok stmts => some (readAmpgen pol lookup st stmts)
+  | .error _ => none
+
+/-- C17 from the text: for every statement list meeting `AStmtOK` with integer flags and every good
+    layout, what the reader classes return for the *text* `renderAmp ℓ d` is what `readAmpgen` returns
+    for the statements written — event type, parameter and constant tables, expanded amplitudes, and
+    the class state — so all statement-level theorems of this file (`C17_tables`, `C17_option`,
+    `C17_expand_*`, `C17_policy`, …) hold of the text -/
+theorem C17_text (pol : ResetPolicy) (lookup : String → Option String) (st : RState)
+    (ℓ : Amp.RT.AmpLayout) (hℓ : Amp.RT.GoodAmpLayout ℓ) (d : List Amp.AStmtT)
+    (hd : ∀ s ∈ d, Amp.RT.AStmtOK s) (hne : d ≠ []) (hi : ∀ s ∈ d, Amp.RT.FlagsInt s) :
+    readAmpgenText pol lookup st (String.ofList (Amp.RT.renderAmp ℓ d)) =
+      some (readAmpgen pol lookup st (d.map Amp.RT.stmtOf)) := by
+  unfold readAmpgenText
+  rw [C17_readAmp_layout ℓ hℓ d hd hne hi]
+
+/-- and it does not depend on the layout -/
+theorem C17_text_layout (pol : ResetPolicy) (lookup : String → Option String) (st : RState)
+    (ℓ₁ ℓ₂ : Amp.RT.AmpLayout) (h₁ : Amp.RT.GoodAmpLayout ℓ₁) (h₂ : Amp.RT.GoodAmpLayout ℓ₂) (d : List Amp.AStmtT)
+    (hd : ∀ s ∈ d, Amp.RT.AStmtOK s) (hne : d ≠ []) (hi : ∀ s ∈ d, Amp.RT.FlagsInt s) :
+    readAmpgenText pol lookup st (String.ofList (Amp.RT.renderAmp ℓ₁ d)) =
+    readAmpgenText pol lookup st (String.ofList (Amp.RT.renderAmp ℓ₂ d)) := by
+  rw [C17_text pol lookup st ℓ₁ h₁ d hd hne hi, C17_text pol lookup st ℓ₂ h₂ d hd hne hi]
+
 end DL
